@@ -11,16 +11,20 @@ slice that holds the pending size header may be a MERGE of the copied header wit
 `read_n` allocation that happens to be adjacent to it — `Props/C01G.lean`, second example —; the exact
 formula `begin + brLen + cur` is unaffected.)
 
-Still partial: `enc_lag_le_partial` — the bound by a constant — takes, like `C09W.enc_lag_le_partial`, the
-hypothesis `hcap` that the slice holding the pending header ends within `S` bytes of its chunk.
-`Props/C09G.lean` discharges it (`S = 2^20`) for borrow / copy input through the multi-object arena
-invariant `ArenaInv`; anchored calls are not histories of that vocabulary (`WOp`: the anchor is pushed
-once, after several sub-slice pushes), and an anchored `read_n(count)` makes the arena allocate a chunk of
-at least `count` bytes, so with anchored input the constant is `max(2^20, largest count ever requested)`
-— "one arena chunk" of the property — not `2^20`.  Full statement (not proved): `enc_lag_le_partial`
-without `hcap`, for `S := max 2^20 (max count of the calls)`, production tuning.
+The bound by a constant: `enc_lag_le_partial` keeps, like `C09W.enc_lag_le_partial`, the in-capacity fact as a
+HYPOTHESIS (`hcap`: the slice holding the pending header ends within `S` bytes of its chunk) and is therefore
+still called `_partial`; `enc_lag_le` and `enc_lag_le_prod` DISCHARGE it, for all input methods: the
+property's "one arena chunk plus one HCOBS chunk and its header".  With anchored input the arena chunk is as
+large as the largest `read_n(count)` asks for, so the statement has the bound `B` on the requests as a
+parameter (`ReadsLe B calls`: every anchored read's `count ≤ B`; the encoder's own requests are at most
+`max(maxInit, maxSub)`) and `S` = the largest chunk the arena tuning `T` allocates for requests up to `B`
+(`Hint T B S`); for the production tuning and reads below 2^20 bytes, `S = 2^20` and the constant is the
+`2^20 + 64008 + 2` of `Props/C09G.enc_lag_le_prod_partial`, now without the restriction to borrow / copy
+input.  (`Proofs/EncWorldCap.lean`: a direct invariant on the cache and the slices, call by call; no
+multi-object arena invariant needed.)
 -/
 import Woodpile.Proofs.EncWorldAnch
+import Woodpile.Proofs.EncWorldCap
 import Woodpile.Props.C02
 
 namespace Woodpile.Props.C09H
@@ -56,6 +60,38 @@ theorem enc_lag_le_partial (p : Params) (hp : p.Valid) (pol : Policy) (tun : Tun
   · intro hcap
     have : r.e.st.maxChunk ≤ max p.maxInit p.maxSub := by rcases h12 with h | h <;> rw [h] <;> omega
     split at h11 <;> omega
+
+/-- In-capacity, all input methods: between the calls of any run on arena tuning `T`, every owned slice of
+the encoder's iovec ends within `S` bytes of the start of its chunk, when requests of at most `B` bytes are
+answered with chunks of at most `S` bytes (`Hint T B S`), the chunk limits are at most `B`, and every
+anchored read asks for at most `B` bytes. -/
+theorem enc_slices_in_cap (T : Tuning) (B S : Nat) (hH : Hint T B S) (hB2 : 2 ≤ B) (p : Params)
+    (hinit : p.maxInit ≤ B) (hsub : p.maxSub ≤ B) (pol : Policy) (calls : List ACall) (hc : ReadsLe B calls) (r : Run)
+    (h : encPrefixA p pol T calls = some r) :
+    ∀ v, r.w.iov 0 = some v → ∀ s ∈ v.slices, ∀ c, s.region = .chunk c → s.off + s.len ≤ S :=
+  encPrefixA_cap hH hB2 p hinit hsub pol calls hc r h
+
+/-- The lag bound of C09 on the structural iovec, all input methods, no hypothesis left: after
+`Encoder::new` and any calls (any segmentation; borrow / copy / anchored reads of at most `B` bytes, any
+reader behaviour; any interleaved `consume` / `advance_slices`), `total_size − |stable prefix| <
+S + max(maxInit, maxSub)`, `S` the largest chunk the arena allocates for requests up to `B`. -/
+theorem enc_lag_le (T : Tuning) (B S : Nat) (hH : Hint T B S) (p : Params) (hp : p.Valid)
+    (hB : 64008 ≤ B) (pol : Policy) (calls : List ACall) (hc : ReadsLe B calls) :
+    ∃ r v, encPrefixA p pol T calls = some r ∧ r.w.iov 0 = some v ∧
+      v.totalSize - (r.w.visible v).length < S + max p.maxInit p.maxSub := by
+  obtain ⟨r, v, s, c, h1, h2, h3, h4, _, h6⟩ := enc_lag_le_partial p hp pol T calls S
+  have hm := valid_max_le p hp
+  exact ⟨r, v, h1, h2, h6 (enc_slices_in_cap T B S hH (by omega) p (by omega) (by omega) pol calls hc r h1 v h2 s h3 c h4)⟩
+
+/-- … production tuning, production parameters, anchored reads below 2^20 bytes: the property's
+`2^20 + 64008 + 2`. -/
+theorem enc_lag_le_prod (pol : Policy) (calls : List ACall) (hc : ReadsLe 1048575 calls) :
+    ∃ r v, encPrefixA C02.prod pol prodTuning calls = some r ∧ r.w.iov 0 = some v ∧
+      v.totalSize - (r.w.visible v).length < 1048576 + 64008 + 2 := by
+  obtain ⟨r, v, h1, h2, h3⟩ := enc_lag_le prodTuning 1048575 1048576 (hint_prod _ (by omega)) C02.prod
+    C02.prod_params_valid (by omega) pol calls hc
+  have hm : max C02.prod.maxInit C02.prod.maxSub = 64008 := by decide
+  exact ⟨r, v, h1, h2, by omega⟩
 
 /-- Decoder: lag 0, all input methods.  After `Decoder::new` and any calls (and `finish`), whatever the
 verdict, no backref is pending and the stable prefix is everything buffered. -/
@@ -108,5 +144,14 @@ example : lagObs ⟨64, 256⟩ [.read 4 2 [0x31, 0x32, 0x33, 0x34] [.deliver 4]]
 -- a failed read changes nothing
 example : lagObs ⟨64, 256⟩ [.read 4 2 [0x31, 0x32, 0x33, 0x34] [.deliver 4], .read 9 3 [1, 2] [.err 0, .err 7]]
     = some (6, [(0, 1), (5, 6)], [3], 2, 1) := by decide +kernel
+
+-- the hypotheses of `enc_lag_le_prod` are met by any call list whose anchored reads ask for < 2^20 bytes
+example : ReadsLe 1048575 [.call (.feed .copy [1]), .read 4 2 [0x31, 0x32, 0x33, 0x34] [.deliver 4], .call (.consume 1)] := by
+  simp [ReadsLe]
+example : Hint prodTuning 1048575 1048576 := hint_prod _ (by omega)
+-- … and the capacity is what bounds the slices: a 5000-byte request makes the production arena install an
+-- 8 KiB chunk (the second size of its sequence), a 2^20-byte one a 2^20-byte chunk
+example : findHintSize prodTuning 5000 4096 = 8192 := by decide
+example : findHintSize prodTuning 1048575 65536 = 1048576 := by decide
 
 end Woodpile.Props.C09H
